@@ -185,7 +185,14 @@ def check(case):
                 continue
             if kind == 'pickle':
                 if backend == 'json':
-                    db = pickle.loads(pickle.dumps(db))
+                    blob = pickle.dumps(db)
+                    if len(req) > 1 and req[1] == 'files_change':
+                        # between dumps and loads the JSON files change (another job regenerates them): the pickled
+                        # database still answers what it answered when it was pickled
+                        for f in sorted(Path(tmp).glob('part*.json')):
+                            f.write_text(json.dumps({'datasets': {'ghost': {'g0': {'v': 'ghost'}}}}))
+                        events.add('pickled-files-changed')
+                    db = pickle.loads(blob)
                     held.clear()  # a new database object has its own memo
                     events.add('pickled')
                 continue
@@ -329,7 +336,7 @@ def st_case(draw):
         if r == 0:
             reqs.append(['gc'])
         elif r == 1:
-            reqs.append(['pickle'])
+            reqs.append(['pickle'] + (['files_change'] if draw(st.booleans()) else []))
         elif r <= 3:
             reqs.append(['get', draw(st.lists(st.sampled_from(names_all[:-1]), min_size=1, max_size=3)),
                          draw(st.sampled_from(['list', 'tuple']))])
